@@ -16,7 +16,7 @@ name = sys.argv[3] if len(sys.argv) > 3 else pid + os.path.basename(src.rstrip('
 dst = os.path.join(VERIF, 'seeded', name)
 os.makedirs(dst, exist_ok=True)
 for f in ('patch.diff', 'demo.py', 'notes.md'):
-    if os.path.exists(os.path.join(src, f)):
+    if os.path.exists(os.path.join(src, f)) and os.path.abspath(src) != os.path.abspath(dst):
         shutil.copy(os.path.join(src, f), os.path.join(dst, f))
 wt = '/tmp/evalseed_%s' % name
 subprocess.run(['git', '-C', '/repo', 'worktree', 'remove', '--force', wt], capture_output=True)
@@ -46,10 +46,11 @@ try:
                                env=dict(os.environ, VERIF_REPO=wt, VERIF_SEED=seed), capture_output=True, text=True, timeout=1800)
             viol = [l for l in c.stdout.splitlines() if l.startswith('VIOLATION')]
             detail = [l.strip() for l in c.stdout.splitlines() if l.startswith('  ')][:2]
-            runs.append(dict(seed=int(seed), exit=c.returncode, violations=len(viol), first=(viol[0] if viol else ''), detail=detail))
+            runs.append(dict(seed=int(seed), exit=c.returncode, violations=len(viol), first=(viol[0] if viol else ''), detail=detail,
+                             with_input=any('no-failing-input-found' not in l for l in viol)))
         meta['check_runs'] = runs
         meta['caught'] = any(r['exit'] == 1 for r in runs)
-        meta['caught_with_input'] = any(r['exit'] == 1 and 'no-failing-input-found' not in r['first'] for r in runs)
+        meta['caught_with_input'] = any(r['exit'] == 1 and r.get('with_input') for r in runs)
     notes = os.path.join(dst, 'notes.md')
     meta['needs'] = open(notes).read()[:1200] if os.path.exists(notes) else ''
     meta['ran'] = 'tools/eval_seed.py %s %s' % (pid, src)
